@@ -44,37 +44,43 @@ pub fn relocation<T: Reloc, const K: usize>() {
     let layout = Layout::new::<T>();
     unsafe {
         let a = alloc::alloc::alloc(layout) as *mut T;
+        let b = alloc::alloc::alloc(layout) as *mut T;
         T::mk(a);
         let mut twin_mem = MaybeUninit::<T>::uninit();
         T::mk(twin_mem.as_mut_ptr());
         let twin = &mut *twin_mem.as_mut_ptr();
+        // the operation sequence and the relocation point J are symbolic; the history is split
+        // into "before the move" (on block A) and "after the move" (on block B) so that every
+        // dereference goes through a fixed pointer
         let j: usize = kani::any();
         kani::assume(j <= K);
-        let mut cur = a;
-        let mut moved = false;
+        let codes: [u8; K] = kani::any();
+        let args: [u64; K] = kani::any();
         let mut i = 0;
-        while i <= K {
-            if i == j {
-                let b = alloc::alloc::alloc(layout) as *mut T;
-                core::ptr::copy_nonoverlapping(cur as *const u8, b as *mut u8, layout.size());
-                core::ptr::write_bytes(cur as *mut u8, 0xFF, layout.size());
-                alloc::alloc::dealloc(cur as *mut u8, layout);
-                cur = b;
-                moved = true;
+        while i < K {
+            if i < j {
+                let r1 = (*a).op(codes[i], args[i]);
+                let r2 = twin.op(codes[i], args[i]);
+                assert!(r1 == r2, "c14: twin structures diverge before any relocation (harness defect)");
             }
-            if i < K {
-                let code: u8 = kani::any();
-                let arg: u64 = kani::any();
-                let r1 = (*cur).op(code, arg);
-                let r2 = twin.op(code, arg);
+            i += 1;
+        }
+        // relocate: byte copy to the fresh block, scribble over and free the old one
+        core::ptr::copy_nonoverlapping(a as *const u8, b as *mut u8, layout.size());
+        core::ptr::write_bytes(a as *mut u8, 0xFF, layout.size());
+        alloc::alloc::dealloc(a as *mut u8, layout);
+        let mut i = 0;
+        while i < K {
+            if i >= j {
+                let r1 = (*b).op(codes[i], args[i]);
+                let r2 = twin.op(codes[i], args[i]);
                 assert!(r1 == r2, "c14: relocated structure behaves differently from the one that stayed");
             }
             i += 1;
         }
-        assert!(moved);
-        assert!((*cur).observe() == twin.observe(), "c14: content differs after relocation");
-        core::ptr::drop_in_place(cur);
-        alloc::alloc::dealloc(cur as *mut u8, layout);
+        assert!((*b).observe() == twin.observe(), "c14: content differs after relocation");
+        core::ptr::drop_in_place(b);
+        alloc::alloc::dealloc(b as *mut u8, layout);
         core::ptr::drop_in_place(twin as *mut T);
         kani::cover!(j > 0 && j < K, "relocated in the middle of the history");
     }
